@@ -1,6 +1,6 @@
 """C16 (thin) — lock discipline of the concurrent transaction wrapper."""
 STORES = ["data", "head", "system", "peer", "root"]
-OPS = ["Get", "Set", "Has", "Delete"]
+OPS = ["Get", "Set", "Has", "Delete", "Iterator"]
 
 
 def jobs(tier):
@@ -18,5 +18,5 @@ PROPERTY = {
     "suites": [{"name": "datastore", "pkg": "internal/datastore", "files": ["zz_verif_txn.go"], "common": ["intrinsics", "kvmodel"], "jobs": jobs}],
     "bounds": {"stores": STORES, "operations": OPS, "keys/values": "one symbolic byte each"},
     "assumptions": ["sync.Mutex is modelled as ghost state (single-threaded execution): the check is the sufficient condition 'every root-transaction access happens with the wrapper mutex held', not an exploration of interleavings"],
-    "outside_claim": ["data races / lost effects under real interleavings (thread schedules are not explored by this technique)", "iterators (not wrapped by the mutex), block and enc stores", "merge queue, replicator map, event bus goroutines"],
+    "outside_claim": ["data races / lost effects under real interleavings (thread schedules are not explored by this technique)", "block and enc stores (they run through the same wrapped root transaction)", "Commit/Discard concurrent with other calls", "merge queue, replicator map, event bus goroutines"],
 }
